@@ -1,0 +1,6 @@
+//go:build !verif
+
+package shovel
+
+// verifTrace is a hook of the verification harness; it does nothing in normal builds.
+func verifTrace(kind string, t *Task) {}
